@@ -119,6 +119,9 @@ def srv_line(i, disk, ops, extra_reqs=(), jitter=None):
         kind = kinds[j] if kinds else None
         if kind == "change" and f in opened:
             script.append(["change", FILES[f], v.text])
+        elif kind is None and f in opened and (i * 5 + j) % 4 == 1:
+            # one didChange with two full-text content changes: a stale text first, the new text last (the last one counts)
+            script.append(["change", FILES[f], ["class Stale%d;\n" % j, v.text]])
         elif f in opened and (kind == "reopen" or (kind is None and (i * 7 + j * 3 + f) % 3 == 0)):
             # the editor closes the document and opens it again: versions restart at 1 (the server ignores didClose and the
             # property counts a document that was opened once as open, so the reference is the same)
